@@ -161,8 +161,8 @@ func newVC(eng *Engine, name string, classes map[string]bool) *VC {
 }
 
 func (vc *VC) want(class string) bool {
-	if class == "FRAME" && vc.pureFrame {
-		return true
+	if class == "FRAME" && vc.pureFrame && vc.noSafe == 0 {
+		return true // (not while a contract expression is being evaluated)
 	}
 	return vc.classes == nil || vc.classes[class]
 }
